@@ -17,7 +17,7 @@ TECHNIQUE = "deterministic network simulation: payload x framing x coding x seed
 LEVEL_TEXT = (
     "Seeded responses (payload sizes 0..>64 KiB, Content-Length / chunked with seeded chunk sizes and extensions / close-delimited, identity/gzip/multi-member gzip/zlib/raw deflate/"
     "zstd/multi-frame zstd/two-coding stacks) delivered through the simulated socket in seeded segmentations (1 byte .. whole, cuts aligned with chunk, member and frame boundaries) "
-    "and read by generated programs over read(), read(n), read1(n), read1(), readinto(k), read(0) finished by any read API; also the preloaded .data path. Sampling."
+    "and read by generated programs over read(), read(n), read1(n), read1(), readinto(k), read(0) finished by any read API; also the preloaded .data path. Exhaustive stratum: every call sequence of length <= 2 (quick) / <= 3 (thorough) over {read(n), read1(n), readinto(n): n in 1,2,3,7,64,1000; read(0); read1()} on each of 240 small-response configurations (5 sizes x 8 codings x 3 framings x whole/byte-wise delivery). The rest is sampling."
 )
 LEVEL_NOTE = "trusted: the payload generator (the reference is the payload that was encoded, no second decoder needed); stream/read_chunked/iteration are only started on an untouched chunked response (mixing them with read(n) on a chunked body shares no state by design)"
 N = {"quick": 30000, "thorough": 500000}
@@ -28,7 +28,7 @@ RULE = (
 )
 ASSUMPTIONS = ["one decode_content value per program (switching True -> False is documented to raise)", "gzip members are written with a zero mtime so the run is deterministic"]
 REQUIRED_PROBES = {
-    "quick": ["coding:gzip_multi", "coding:zstd_multi", "coding:stack", "framing:chunked", "framing:close", "seg:byte", "seg:cuts", "finisher:stream", "finisher:read_chunked", "finisher:iter", "preload", "decode_off", "big_body", "short_read_at_end"],
+    "quick": ["coding:gzip_multi", "coding:zstd_multi", "coding:stack", "framing:chunked", "framing:close", "seg:byte", "seg:cuts", "finisher:stream", "finisher:read_chunked", "finisher:iter", "preload", "decode_off", "big_body", "short_read_at_end", "enumerated_program"],
     "thorough": ["coding:gzip_multi", "coding:zstd_multi", "coding:stack", "framing:chunked", "framing:close", "seg:byte", "seg:cuts", "finisher:stream", "finisher:read_chunked", "finisher:iter", "preload", "decode_off", "big_body", "short_read_at_end"],
 }
 
@@ -117,7 +117,32 @@ def gen(rng):
     return {"property": ID, "response": resp, "seg": seg, "decode": decode, "program": prog, "finisher": fin, "amt": amt}
 
 
+# ---- exhaustive stratum: every call sequence of length <= 2 (quick) / <= 3 (thorough) over the statement's alphabet
+#      {read(n), read1(n), readinto(n) for n in 1,2,3,7,64,1000; read(0); read1()} on every small-response configuration
+ENUM_AMTS = [1, 2, 3, 7, 64, 1000]
+ENUM_OPS = [[op, a] for op in ("read", "read1", "readinto") for a in ENUM_AMTS] + [["read0", 0], ["read1_none", 0]]
+ENUM_LEN = {"quick": 2, "thorough": 3}
+ENUM_CONFIGS = [(size, coding, framing, seg) for size in (0, 1, 2, 5, 70) for coding in B.CODINGS for framing in ("cl", "chunked", "close") for seg in ("whole", "byte")]
+
+
+def enum_programs(L):
+    import itertools
+
+    for n in range(0, L + 1):
+        for t in itertools.product(range(len(ENUM_OPS)), repeat=n):
+            yield [list(ENUM_OPS[i]) for i in t]
+
+
 def cases(seed, k, tier):
+    if k < len(ENUM_CONFIGS):
+        size, coding, framing, seg = ENUM_CONFIGS[k]
+        resp = {"payload": {"size": size, "kind": "compressible", "seed": k}, "coding": coding, "framing": framing}
+        if framing == "chunked":
+            resp["chunks"] = [3]
+        if coding.endswith("_multi"):
+            resp["split_at"] = size // 2
+        for prog in enum_programs(ENUM_LEN.get(tier, 2)):
+            yield {"property": ID, "response": resp, "seg": {"mode": seg}, "decode": True, "program": prog, "finisher": "read_all", "amt": 1000, "enum": True}
     yield gen(rng_for(seed, ID, k))
 
 
@@ -254,6 +279,8 @@ def run(sc: dict) -> Result:
         stack = built["stack"]
         res.probes["coding:" + (stack[0] if len(stack) == 1 else "stack")] += 1
         res.probes["framing:" + resp["framing"]] += 1
+        if sc.get("enum"):
+            res.probes["enumerated_program"] += 1
         res.probes["seg:" + sc["seg"]["mode"]] += 1
         if not sc["decode"]:
             res.probes["decode_off"] += 1
